@@ -26,6 +26,7 @@ CONSTANTS MaxBlocks,      \* 1..3
           CfiLayouts,     \* subset of {"none","proc_all","proc_each","proc_rs"}
           Isa,            \* "x64" | "ia32" | "arm64": instruction sizes of the rendered module
           WithScopes,     \* BOOLEAN: generate register_insert(AllBlocksScope(ENTRY), ..) requests
+          ExtraData,      \* BOOLEAN subset: add an untouched .data section whose word refers to the target symbol
           Retargets,      \* BOOLEAN subset: also retarget_symbol_uses(target symbol -> another block's symbol)
           AlignOpts,      \* subset of {0, 4, 16}: alignment aux data on the first block (0 = none)
           InsFns,         \* subset of {"none", "ret", "loop"}: register_insert_function("newfn", ..)
@@ -114,7 +115,7 @@ MkBlock(i, nb, tpl, tgtIdx, layout, endSym, annMode, annAt, cl, noSym, al) ==
 
 ShapeParams ==
   {p \in [nb : 1..MaxBlocks, tpl : [1..MaxBlocks -> Templates], tgt : 1..MaxBlocks,
-          layout : FnLayouts, es : SUBSET (1..MaxBlocks), ns : SUBSET (1..MaxBlocks), am : AnnModes, cl : CfiLayouts, al : AlignOpts,
+          layout : FnLayouts, es : SUBSET (1..MaxBlocks), ns : SUBSET (1..MaxBlocks), am : AnnModes, cl : CfiLayouts, al : AlignOpts, xd : ExtraData,
           annAt : (1..MaxBlocks) \X (0..3)] :
      /\ \A i \in (p.nb + 1)..MaxBlocks : p.tpl[i] = CHOOSE x \in Templates : TRUE
      /\ p.tgt <= p.nb
@@ -131,11 +132,17 @@ ShapeParams ==
      /\ (p.cl # "none" => ~IsData(p.tpl[1]) /\ ~IsData(p.tpl[p.nb]))
      /\ (p.cl = "proc_rs" /\ p.nb >= 2 => ~IsData(p.tpl[2]))}
 
+DataSection(tgtIdx) ==
+  [name |-> ".data",
+   blocks |-> <<[kind |-> "data", units |-> << <<"d", 4, 90>>, <<"dq", BName(tgtIdx), 0>> >>,
+                 syms |-> <<"dd">>, esyms |-> <<>>, fn |-> "", entry |-> FALSE,
+                 ann |-> << <<1, "comments", "bi", "dc">> >>, cfi |-> <<>>, align |-> 0]>>]
 MkShape(p) ==
   [isa |-> Isa, fmt |-> "elf",
    sections |-> <<[name |-> ".text",
                    blocks |-> [i \in 1..p.nb |->
-                       MkBlock(i, p.nb, p.tpl[i], p.tgt, p.layout, i \in p.es, p.am, p.annAt, p.cl, i \in p.ns, p.al)]]>>]
+                       MkBlock(i, p.nb, p.tpl[i], p.tgt, p.layout, i \in p.es, p.am, p.annAt, p.cl, i \in p.ns, p.al)]]>>
+                \o (IF p.xd THEN <<DataSection(p.tgt)>> ELSE <<>>)]
 
 (***************************************************************************)
 (* The abstract pre-state of a shape, in the projection's format, so that  *)
@@ -200,8 +207,17 @@ AbsState(sh) ==
       iann == FlattenSeq([i \in 1..Len(bs) |->
                  LET a == SelectSeq(bs[i].ann, LAMBDA x : x[3] = "bi")
                  IN  [q \in 1..Len(a) |-> [p |-> pos[i - 1] + a[q][1], t |-> a[q][2], v |-> a[q][4], ok |-> TRUE]]])
+      dsec == IF Len(sh.sections) < 2 THEN <<>>
+              ELSE LET db == sh.sections[2].blocks[1]
+                   IN  <<[name |-> ".data", size |-> 12,
+                          blocks |-> <<[u |-> 100, k |-> "data", p |-> 0, n |-> 12,
+                                        units |-> ExpandUnits(100, db.units), ss |-> db.syms, es |-> <<>>,
+                                        fn |-> <<>>, ent |-> <<>>, sx |-> SxOf(db.units), ann |-> <<>>,
+                                        cfi |-> <<>>, al |-> 0, inside |-> TRUE]>>,
+                          iann |-> <<[p |-> 1, t |-> "comments", v |-> "dc", ok |-> TRUE]>>,
+                          sxout |-> <<>>, noaddr |-> 0]>>
   IN  [secs |-> <<[name |-> ".text", size |-> pos[Len(bs)], blocks |-> [i \in 1..Len(bs) |-> blk(i)],
-                   iann |-> iann, sxout |-> <<>>, noaddr |-> 0]>>,
+                   iann |-> iann, sxout |-> <<>>, noaddr |-> 0]>> \o dsec,
        syms |-> <<>>, fns |-> <<>>]
 
 (***************************************************************************)
